@@ -697,7 +697,19 @@ func TestVerifUnivExec(t *testing.T) {
 		}
 		out.Emit(vfM{"a": "reset", "members": kinds})
 		pf, pr, only := uPair(fresh, reused)
-		out.Emit(vfM{"a": "cmp", "fresh": pf, "reused": pr, "unpaired": only})
+		// emissions of the reused run under a key the fresh run never produced: either an asynchronous emission the fresh
+		// run did not get to, or one built from a header the caller had already overwritten (the specification tells them apart)
+		known := map[string]bool{}
+		for _, v := range fresh {
+			known[uKey(v)] = true
+		}
+		alien := []vfM{}
+		for _, v := range uSorted(reused) {
+			if !known[uKey(v)] {
+				alien = append(alien, v)
+			}
+		}
+		out.Emit(vfM{"a": "cmp", "fresh": pf, "reused": pr, "unpaired": only, "alien": alien})
 	}
 }
 
